@@ -118,7 +118,7 @@ def run(ctx):
         # deterministic_proba range
         try:
             u = im.binning.deterministic_proba(sv)
-            ok = isinstance(u, float) and 0.0 <= u < 1.0
+            ok = 0 <= u < 1  # any real number type
         except Exception as e:  # noqa: BLE001
             ok, u = False, type(e).__name__
         ctx.evaluated()
